@@ -18,6 +18,7 @@ static int should_fail(int site, const char *fn)
 	if (vf_fail_at > 0 && vf_alloc_requests == vf_fail_at) {
 		vf_failed++;
 		vf_failed_fn = fn;
+		fprintf(stderr, "VF-OOM-INJECT fn=%s\n", fn);
 		errno = ENOMEM;
 		return 1;
 	}
